@@ -9,6 +9,21 @@ against the real crate.
 All Kani harnesses here bound the buffer length (stated per harness): the search is BOUNDED; it only produces
 witnesses, it never decides a property."""
 import os, sys, re, json, shutil, subprocess, tempfile, time, tomllib
+def run_group(cmd, cwd, env, timeout):
+    """subprocess.run with capture, in its own process group; on time-out the WHOLE group is killed (cargo-kani leaves a cbmc
+    child running otherwise).  Returns (returncode or None on time-out, stdout+stderr)."""
+    import signal
+    p = subprocess.Popen(cmd, cwd=cwd, env=env, stdout=subprocess.PIPE, stderr=subprocess.STDOUT, text=True, start_new_session=True)
+    try:
+        out, _ = p.communicate(timeout=timeout)
+        return p.returncode, out
+    except subprocess.TimeoutExpired:
+        try: os.killpg(p.pid, signal.SIGKILL)
+        except Exception: pass
+        try: out, _ = p.communicate(timeout=10)
+        except Exception: out = ''
+        return None, (out or '') + '\nTIMEOUT'
+
 ROOT = os.path.dirname(os.path.dirname(os.path.abspath(__file__)))
 REPO = os.environ.get('VERIF_REPO', '/repo')
 
@@ -173,10 +188,8 @@ def search(harness, timeout=420):
         env = dict(os.environ, CARGO_NET_OFFLINE='true', CARGO_TARGET_DIR=os.path.join(tmp, 'target'))
         cmd = ['cargo', 'kani', '--harness', 'search_' + harness, '-Z', 'concrete-playback', '--concrete-playback=print', '--output-format', 'terse']
         t0 = time.time()
-        try:
-            p = subprocess.run(cmd, cwd=tmp, env=env, capture_output=True, text=True, timeout=timeout)
-            out = p.stdout + p.stderr
-        except subprocess.TimeoutExpired:
+        rc_, out = run_group(cmd, tmp, env, timeout)
+        if rc_ is None:
             return {'status': 'timeout', 'bound': h['bound'], 'wall_s': round(time.time() - t0, 1)}
         wall = round(time.time() - t0, 1)
         if 'VERIFICATION:- SUCCESSFUL' in out:
